@@ -36,7 +36,12 @@ ASSUMPTIONS = [
 
 ALPHA = "ab/:._"
 CURS_QUICK = ["", ".", "x/y"]
-UNI = {"pkgs": ["", ".", "a", "b", "a/", "a/b", "a/a", "ab", "a2", "a_", "a.", "a/b/a", "b/a", "a//", "/", "//", "a/.", "x/y", "x/y/a", "x"],
+# current packages used for *relative labels* only (any directory name is possible there; the theorem `relative`
+# says the package is the current package verbatim unless it is ".")
+CURS_LABEL = ["", ".", "x/y", ".x", ".github/ci", "./a", "a/.b", "..", "a.", "_", "-x", "x/./y", "a//b"]
+UNI = {"pkgs": ["", ".", "a", "b", "a/", "a/b", "a/a", "ab", "a2", "a_", "a.", "a/b/a", "b/a", "a//", "/", "//", "a/.", "x/y", "x/y/a", "x",
+                # siblings sharing a string prefix, with sub-packages of their own
+                "ab/a", "a2/b", "a_/b", "a./b", "a/b2/a", "a/ba/b", "x/y2/z", "x/yy", "b/a/b", "ba/a"],
        "names": ["a", "b", "all", "...", "ab", "y", "a:b", "_", "a.", ".a"]}
 
 
@@ -112,9 +117,14 @@ def run(ctx):
                             f"every accepted pattern matched against {len(labs)} labels; non-trivial = accepted by at least one parser")
     reqs = []
     for s in strings:
-        for cur in (curs if s.startswith(":") or not s.startswith("//") else curs[:1]):
+        rel = s.startswith(":") or not s.startswith("//")
+        for cur in (curs if rel else curs[:1]):
             reqs.append({"op": "label.parse", "cur": cur, "s": s})
             reqs.append({"op": "pattern.parse", "cur": cur, "s": s, "uni": UNI})
+        if s.startswith(":") and len(s) <= 4:
+            for cur in CURS_LABEL:
+                if cur not in curs:
+                    reqs.append({"op": "label.parse", "cur": cur, "s": s})
     # --- correspondence ----------------------------------------------------------------------
     impl_out = []
     bad = []
@@ -199,6 +209,32 @@ def run(ctx):
             ctx.violation("pattern matches a label the documented algebra excludes (or misses one it includes)",
                           {"kind": "oracle", "oracle": "reference matcher", "request": strip(r), "impl": x, "label": labs[i], "expected": exp[i]},
                           signature="pattern-match-differs-from-reference")
+    # (3) relative labels resolve against the current package; shorthand //p == //p:base(p)
+    by_req = {(r["op"], r["cur"], r["s"]): x for r, x in zip(reqs, impl_out)}
+    rel_checked = sh_checked = 0
+    for r, x in zip(reqs, impl_out):
+        if r["op"] != "label.parse":
+            continue
+        if r["s"].startswith(":") and x.get("ok"):
+            rel_checked += 1
+            exp = "" if r["cur"] == "." else r["cur"]
+            if x["label"]["pkg"] != exp or x["label"]["name"] != r["s"][1:]:
+                oracle_fail += 1
+                ctx.violation("a relative label does not resolve against the current package",
+                              {"kind": "oracle", "oracle": "relative label", "request": strip(r), "impl": x, "expected_pkg": exp},
+                              signature="relative-label-wrong-package")
+        if r["s"].startswith("//") and ":" not in r["s"]:
+            p_ = r["s"][2:]
+            other = by_req.get(("label.parse", r["cur"], r["s"] + ":" + p_.split("/")[-1]))
+            if other is not None:
+                sh_checked += 1
+                if (x.get("ok"), x.get("label")) != (other.get("ok"), other.get("label")):
+                    oracle_fail += 1
+                    ctx.violation("shorthand //p does not parse like //p:base(p)",
+                                  {"kind": "oracle", "oracle": "shorthand", "request": strip(r), "impl": x, "explicit": other},
+                                  signature="shorthand-differs")
+    ctx.coverage["oracle_relative_labels"] = rel_checked
+    ctx.coverage["oracle_shorthand_pairs"] = sh_checked
     ctx.coverage["oracle_roundtrips"] = len(rt_reqs)
     ctx.coverage["oracle_reference_patterns"] = ref_checked
     ctx.coverage["oracle_failures"] = oracle_fail
